@@ -671,6 +671,7 @@ class Fxp():
     # methods about value
 
     def _format_inupt_val(self, val, return_sizes=False, raw=False, set_inaccuracy=True):
+        self._inexact_input = False
         vdtype = None
         signed = self.signed
         n_word = self.n_word
@@ -769,10 +770,9 @@ class Fxp():
                 _exact = (_exact - Fraction(self.bias)) / Fraction(self.scale)      # (the scaled object stores (v - bias) / scale)
             _exact = _exact * Fraction(2)**self.n_frac
             val = self._round(_exact, method=self.config.rounding)
-            if set_inaccuracy and val != _exact:
-                # (the rounded code is handed over as a raw value: the loss is noted here, the store compares codes with codes)
-                self.status['inaccuracy'] = True
-                self._run_callbacks('on_status_inaccuracy')
+            # (the rounded code is handed over as a raw value: the loss is noted for the store, which compares codes with codes,
+            # so that an inexact write is flagged and notified once)
+            self._inexact_input = bool(set_inaccuracy and val != _exact)
             raw = True
             vdtype = int              # (the code is an integer on its way to the store: a cast to float would round it to 53 bits)
 
@@ -1019,7 +1019,9 @@ class Fxp():
         self._update_dtype()
 
         # check inaccuracy
-        if not np.equal(val, new_val/conv_factor).all() :
+        _inexact_input = getattr(self, '_inexact_input', False)
+        self._inexact_input = False
+        if _inexact_input or not np.equal(val, new_val/conv_factor).all() :
             self.status['inaccuracy'] = True
             self._run_callbacks('on_status_inaccuracy')
 
